@@ -90,7 +90,11 @@ def generate_source_code(docstring, parsed):
         refs = [Ref(x.name) for x in ignored]
 
         if super_has_ignore:
-            refs.append(Ref('_super_ctx._ignored'))
+            inherited = Ref('super._ignored')
+            inherited._resolved = '_super_ctx.' + ex.implementation_name('_ignored')
+            # The parent's rule succeeds also when it skips nothing. Skip must
+            # know that, or it would try again forever.
+            refs.append(ex.Opt(inherited))
 
         rules.append(ex.Rule('_ignored', None, ex.Skip(*refs), 'ignored'))
 
